@@ -109,7 +109,7 @@ def run(tier):
     # ---- what B recorded is what B's next QueryResp carries: the record -> report obligations of the observation list,
     # re-decided here because this property's statement ends at the QueryResp, not at the record
     from .c07 import decide, RuleView
-    decide(RuleView(rep, {r: 'R10.5' for r in ('R07.a', 'R07.c', 'R07.e', 'R07.f', 'R07.g', 'R07.i')}), prog)
+    decide(RuleView(rep, {r: 'R10.5' for r in ('R07.a', 'R07.c', 'R07.e', 'R07.f', 'R07.g', 'R07.i', 'R07.j')}), prog)
     return finish(rep, 'other',
                   'Decides the structural clause "emitter and observer agree on the frame format": the observer\'s filter field and recorded identity are extracted from the '
                   'interpreted Probe/Train cell, and every Probe/Train the interpreted Emit cell can transmit must carry the descriptor destination / own address at exactly those '
